@@ -26,15 +26,18 @@ def recover_events(ctx):
     ev = []
     saved = keylife.fast_s2k()
     try:
-        combos = [(SymmetricKeyAlgorithm.AES256, HashAlgorithm.SHA256), (SymmetricKeyAlgorithm.CAST5, HashAlgorithm.SHA1), (SymmetricKeyAlgorithm.Camellia128, HashAlgorithm.SHA512),
-                  (SymmetricKeyAlgorithm.TripleDES, HashAlgorithm.SHA224), (SymmetricKeyAlgorithm.AES192, HashAlgorithm.SHA384), (SymmetricKeyAlgorithm.Blowfish, HashAlgorithm.MD5)]
+        # (cipher, S2K hash): the third and the last three need more than one hash context (cipher key longer than the digest)
+        combos = [(SymmetricKeyAlgorithm.AES256, HashAlgorithm.SHA256), (SymmetricKeyAlgorithm.CAST5, HashAlgorithm.SHA1), (SymmetricKeyAlgorithm.AES256, HashAlgorithm.SHA1),
+                  (SymmetricKeyAlgorithm.Camellia128, HashAlgorithm.SHA512),
+                  (SymmetricKeyAlgorithm.TripleDES, HashAlgorithm.SHA224), (SymmetricKeyAlgorithm.AES192, HashAlgorithm.SHA384), (SymmetricKeyAlgorithm.Blowfish, HashAlgorithm.MD5),
+                  (SymmetricKeyAlgorithm.AES192, HashAlgorithm.SHA1), (SymmetricKeyAlgorithm.Camellia256, HashAlgorithm.SHA224), (SymmetricKeyAlgorithm.AES256, HashAlgorithm.MD5)]
         pws = ['ascii pass', 'pässwörd ✓', 'x' * 1000, b'\xff\xfe raw bytes']
         n = 0
         for alg, subs in (('ed25519', ['cv25519']), ('rsa2048', []), ('p256', ['ecdh256']), ('dsa1024', [])):
             if ctx.quick and alg == 'dsa1024':
                 continue
             S = keylife.Subject(alg, subs)
-            for ci, (cipher, h) in enumerate(combos if not ctx.quick else combos[:3]):
+            for ci, (cipher, h) in enumerate(combos if not ctx.quick else combos[:4]):
                 pw = pws[(n + ci) % len(pws)]
                 n += 1
                 if ci == 1:
@@ -167,6 +170,10 @@ def run(ctx):
         if clause.startswith('harness'):
             raise MachineryError('TLC rejected harness-built secret key (%s): %s' % (clause, e['label']))
         ctx.violation(clause, e['label'].split(' cipher=')[0], {'event': {k: v for k, v in e.items() if k not in ('body', 'pt', 'orig_secret')}})
+    # whole-session walks of spec/Session.tla (protection scopes x signatures x encryption x keyring), this property's clause family
+    from .. import session as _session
+    for _b, _step, _clause, _detail in _session.generate(ctx, 'C06.session')[0]:
+        ctx.violation(_clause, 'session: %s at %s' % (_detail, _b[_step - 1][0]), {'behaviour': [list(x) for x in _b[:_step]]})
     return ctx.finish(level='model_checking',
                       rule='every action sequence of KeyProtect.tla to depth 4 (quick: all of depth <= 3 + 450 of depth 4 on Ed25519, samples on RSA / P-256) / 5 '
                            '(thorough), plus random walks of 6-13 steps, observed after every step; recovery: key algorithms x protection ciphers x S2K hashes x '
